@@ -16,7 +16,20 @@ PROP = dict(
                        "totals_exact_with_live_workers (TUI and /metrics counters = number of events)",
                        "no_data_race"]),
     ],
-    partial="",
-    assumptions=[],
-    level_text="",
+    partial="mean.go is modelled AFTER fixes/C17-mean-mutex.diff (count and sum under one mutex): the code as found is kept as "
+            "mean_*_orig and refuted by C17_mean_reset_orig_refuted (reset racing add tears count/sum; reproduced on the real "
+            "code by the driver, known finding until the fix is committed). Critical sections (sync.Mutex) are single steps of the "
+            "transition system; Go's memory model for sync/atomic (sequentially consistent atomics) is assumed, not modelled. "
+            "Prometheus collectors are third-party and only checked (their /metrics values against event counts), not modelled. "
+            "The per-second rate value (rate.get) is modelled but nothing is claimed about it: it depends on the clock.",
+    assumptions=["sync/atomic operations are sequentially consistent and indivisible (Go memory model); sync.Mutex gives mutual exclusion",
+                 "the rate objects of the bucket are reachable only through rateBucket methods (checked by reading; the -race build reports any unlocked access)",
+                 "stage workers do nothing with their own gauge between the Incr at start and the deferred Decr (gauge_free; checked on the real workers by the gauges driver)"],
+    level_text="Labelled transition system over atomic actions (Add/Load/Store/Swap/CAS on 64-bit words, critical sections as single steps); goroutines are "
+               "resumption programs transliterated from the Go bodies, with data flow and branches; theorems by induction over ARBITRARY schedules "
+               "(pending-effect invariant in a commutative monoid): totals exact incl. under resets/getters/concurrent key creation, means exact and "
+               "consistent under reset, gauges = live workers at every point of every schedule, order irrelevance and equality with the sequential "
+               "run, 2^64 wrap-around throughout; witnesses for the original mean code and for the bucket without its mutex. Tied to the code by "
+               "2..32 goroutines hammering the real package under the race detector and by real stage workers in child processes, compared at every quiescent point.",
+    technique="Coq: resumption-program LTS + pending-effect invariant; Go: -race differential bursts, child processes with real workers, /metrics scrape",
 )
